@@ -5,8 +5,9 @@
 //! (b) routing  BFS to fix-point over join/add/fail/evict histories on a real `DhtCoreEngine`: an evicted/failed id
 //!              occurs in no `find_nodes` / FindNode answer for any probed key until it is added again.
 //! (c) selector every ordered list of distinct candidates (<= 4, thorough 5) over an 8-id alphabet built around the
-//!              f64 resolution of the score x every trust assignment over 8 values (incl. NaN, -0.5, 1.5) x counts
-//!              0..5 x 4 selector configurations, through `TrustAwarePeerSelector::{select_peers, select_storage_peers}`.
+//!              f64 resolution of the score x every trust assignment over 8 values (incl. NaN, -0.5, 1.5; lists of the
+//!              maximal length: the 6 boundary values) x counts 0..5 x 4 selector configurations, through
+//!              `TrustAwarePeerSelector::{select_peers, select_storage_peers}`.
 //! (d) engine   every routing table over the same alphabet x every pre-trusted subset (+ a family of 9..32-peer
 //!              tables), trust selection disabled / enabled, through `DhtCoreEngine::{store, retrieve}`
 //!              (`select_storage_peers` / `select_query_peers`), observing `StoreReceipt::stored_at` and the peers a
@@ -131,8 +132,8 @@ fn policy_part(run: &Run, distinct: &Distinct, budget: &Budget, n_peers: usize, 
             let hist = || json!({"config": {"max_consecutive_failures": max_fail, "min_trust_threshold": thr}, "events": h.iter().map(|&i| ev_json(&alpha[i])).collect::<Vec<_>>()});
             // ---- observe ----
             let cands = m.get_eviction_candidates();
-            let mut canon: Vec<(u32, Option<u64>, String, bool)> = Vec::new();
-            let mut obs: Vec<(usize, String, bool, bool)> = Vec::new();
+            let mut canon: Vec<(u32, Option<u64>, (u8, u32), bool)> = Vec::new();
+            let mut obs: Vec<(usize, (u8, u32), bool, bool)> = Vec::new();
             for p in 0..n_peers {
                 let id = peer_id(p);
                 let name = ["X", "Y", "Z"][p];
@@ -208,11 +209,15 @@ fn policy_part(run: &Run, distinct: &Distinct, budget: &Budget, n_peers: usize, 
                         run.violation_lazy("C16.evict-success-clears", feats(&[("entry", "record_success".into())]), || wit(format!("after a success peer {name} still has failure-based candidacy (should_evict={se}, failures={fails_obs}, reason={reason:?})")));
                     }
                 }
-                let reason_c = match &reason {
-                    Some(EvictionReason::ConsecutiveFailures(n)) if r[p].marked.is_none() => format!("CF({})", (*n).min(cap)),
-                    other => format!("{other:?}"),
+                let reason_c: (u8, u32) = match &reason {
+                    None => (0, 0),
+                    Some(EvictionReason::ConsecutiveFailures(n)) if r[p].marked.is_none() => (1, (*n).min(cap)),
+                    Some(EvictionReason::ConsecutiveFailures(n)) => (2, *n),
+                    Some(EvictionReason::LowTrust(x)) => (3, hash64(x) as u32),
+                    Some(EvictionReason::CloseGroupRejection) => (4, 0),
+                    Some(EvictionReason::Stale) => (5, 0),
                 };
-                canon.push((fails_obs.min(cap), trust_obs.map(f64::to_bits), reason_c.clone(), m.get_liveness_state(&id).is_some()));
+                canon.push((fails_obs.min(cap), trust_obs.map(f64::to_bits), reason_c, m.get_liveness_state(&id).is_some()));
                 obs.push((listed.len(), reason_c, se, st));
             }
             for (id, rsn) in &cands {
@@ -840,7 +845,9 @@ fn main() {
     let run = Run::new("C16", "model_checking");
     quiet_panics();
     let distinct = Distinct::default();
-    let budget = Budget::new(Duration::from_secs(run.tier.pick(50, 1500)));
+    // internal wall-clock cap; VERIF_BUDGET_S overrides it (self-tests on a loaded machine)
+    let budget_s = std::env::var("VERIF_BUDGET_S").ok().and_then(|s| s.parse().ok()).unwrap_or(run.tier.pick(50u64, 1500u64));
+    let budget = Budget::new(Duration::from_secs(budget_s));
     let thorough = run.tier == Tier::Thorough;
 
     // ---- (a) ----
@@ -968,7 +975,7 @@ fn main() {
         ("bounds", json!({
             "a_policy": a_detail, "a_fixpoint_all": a_fix,
             "b_routing": {"alphabet_ids": run.tier.pick(6, 8), "states": rs.stats.states, "transitions": rs.stats.transitions, "fixpoint": rs.stats.fixpoint, "max_depth": rs.stats.max_depth, "revisits_compared": rs.stats.revisits, "frontier_sizes": rs.stats.frontier_sizes, "with_evict_node_for_security": thorough},
-            "c_selector": {"alphabet": (0..8).map(sel_desc).collect::<Vec<_>>(), "trust_values": TRUSTS.iter().map(|t| format!("{t}")).collect::<Vec<_>>(), "max_list_len": run.tier.pick(4, 5), "lists": ss.lists, "trust_assignments": ss.assignments, "selector_calls": ss.calls, "counts": [0, 1, 2, 3, 4, 5], "lists_done_by_len(len,done,total)": ss.lists_done_by_len},
+            "c_selector": {"alphabet": (0..8).map(sel_desc).collect::<Vec<_>>(), "trust_values": TRUSTS.iter().map(|t| format!("{t}")).collect::<Vec<_>>(), "trust_values_at_max_len": trusts_long.iter().map(|t| format!("{t}")).collect::<Vec<_>>(), "max_list_len": run.tier.pick(4, 5), "lists": ss.lists, "trust_assignments": ss.assignments, "selector_calls": ss.calls, "counts": [0, 1, 2, 3, 4, 5], "lists_done_by_len(len,done,total)": ss.lists_done_by_len},
             "d_engine": {"tables": cases.len(), "tables_done": d_done, "engine_runs": d_runs, "keys": 2},
             "wall_s_after_part(run order a,b,d,c)": {"a": t_a, "b": t_b, "d": t_d, "c": t_c},
         })),
@@ -977,7 +984,7 @@ fn main() {
         coverage,
         vec![
             "(a) peers are independent map keys in EvictionManager; 2 (thorough 3) peers cover cross-peer listing. Canon caps the consecutive-failure counter at max+1; candidacy and reported count are compared with the uncapped reference in every history".into(),
-            "(a) LowTrust reasons are compared by variant only (the string is a rendering of the score)".into(),
+            "(a) LowTrust reasons are compared by variant only (the string is a rendering of the score); forget = EvictionManager::remove_node discards everything known about the peer, including an explicit rejection".into(),
             "(b) 'added again' = a later add_node/join_network for the id returned Ok; LogOnly close-group validation (the DhtNetworkManager configuration); distinct /8 addresses keep the IP/geo gates non-binding; 'any key' = the probed key set (all alphabet ids, local id, complement, sweeps over byte 0 and byte 31)".into(),
             "(c),(d) 'farther'/'closer' = full 256-bit XOR distance to the key; 'equal trust' = bitwise equal, non-NaN; a closer equal-trust eligible candidate that is left out while a farther one is selected counts as ranked behind it".into(),
             "(c) 'less trusted ahead of more trusted at equal distance' is vacuous under exact XOR distance for distinct ids (equal distance <=> equal id); the selector-metric variant (equal first 16 bytes) is logged as info only".into(),
